@@ -30,6 +30,21 @@ CLAIMS = {
    text="Decides data-race freedom of the shared state reachable at match time, by construction of the code: no store/map-update/append/copy/delete reachable from any exported method of Regexp, compat.Regexp, Match, Group or Capture targets memory derived from a shared Regexp, Code or global, except structures shown to be mutex- or atomic-protected (R-FX); every access to those structures holds the right lock in the right mode, including writes through loaded values such as list.MoveToFront (R-LOCK); the clock end time is only raised under its lock (R-CLOCKEND); pooled runners and buffers have one owner and never leak into a returned Match (R-OWN). Race freedom is necessary for C11; that each concurrent call returns what it would return alone is NOT decided beyond this plus C12.",
    note="Trusted: context-insensitive taint (a helper called with both shared and fresh arguments is treated as shared); a whitelist of read-only external callees; configuration entry points (SetTimeoutCheckPeriod, assigning MatchTimeout, RegisterEngine, UnmarshalText) are outside 'using a compiled Regexp'.",
    ref="DESIGN.md §4 C11"),
+ "C02": dict(
+   technique="static analysis: call-graph reachability / who-may-call, SSA def-use on the quick match value, dominance of direction guards, interprocedural taint from the prefix-filter result",
+   text="Decides the structural preconditions for all entry points to agree: every matching entry point (12 regexp2 methods and every Find*/Match* adapter method) reaches the single scan funnel and the interpreter is called only from it (R-FUNNEL); wherever the capture-free quick program can be active the returned match is only nil-tested or read for position, and run() selects it only under quick && textInfo==nil (R-QUICK); the liveness scan behind the quick program compares masked opcodes (R-MASK); the left-to-right byte filter is never consulted or built for right-to-left programs (R-RTLFILTER); a filter candidate never becomes the \\G origin unless filters are refused for programs containing \\G (R-ORIGIN). It does NOT decide that scan returns equal results for equal arguments, the byte/rune conversion (C08) or the Replace/Split folds (C09).",
+   note="Trusted: VTA call graph; the taint treats decodeStringWithStart/getRunesAndStart as start-preserving helpers (call-site sensitive); default start positions per entry point are not checked (a sound rule could not be separated from the invalid-offset fallbacks).",
+   ref="DESIGN.md §4 C02"),
+ "C03": dict(
+   technique="static analysis: interprocedural taint (filter candidate -> \\G origin), producer/consumer field agreement over the find-mode switch statements (AST + constant evaluation), SSA use-shape of the minimum-length fact, sibling agreement of the fixed-distance filters",
+   text="Decides structural conditions for the candidate search to be a pure accelerator: its candidate never becomes the \\G origin (R-ORIGIN); for every find mode the fields each finder arm reads were assigned by the producer before it set that mode, and every accepted mode has a finder (R-MODE); the minimum-length fact is only ever compared or subtracted from an end position (R-MINLEN); the raw-string filters are left-to-right only (R-RTLFILTER) and agree on the lower bound they hand to the shared candidate-start helper (R-FDSIB). It does NOT decide the arithmetic of any finder (Boyer-Moore tables, IndexOf helpers, offsets) nor whether the published facts are true (C04).",
+   note="Trusted: the producer idiom 'set mode, fill fields, return' is modelled at block granularity; helpers that receive opts.X as an argument are credited with reading X only.",
+   ref="DESIGN.md §4 C03"),
+ "C07": dict(
+   technique="static analysis: SSA value identity and dominance over scan's loop (loop variant, must-pass-through on the CFG), pairing of resume arguments, direction-awareness of folds over the match sequence",
+   text="Decides the structural skeleton of match iteration: each continued search resumes from X.textpos with X.RuneLength of the same match X (R-NEXT); after an empty match every path bumps the attempt position before searching, the stop tests compare with the direction-selected stoppos, and bump/stoppos come from one RightToLeft() test (R-EMPTYBUMP); every back edge of the attempt loop advances one step towards stoppos (R-ADVANCE, the loop variant); both arms of tidyMatch record the resume position (R-TEXTPOS); every fold that carries a position across matches is direction-aware (R-DIRFOLD); the find-all limit is charged only for reported matches (R-COUNTN). Strict monotonicity of returned matches (needs: the finders and the interpreter never move the attempt position backwards) and the length+1 bound are NOT decided.",
+   note="Trusted: go/ssa; 'direction-aware' means the function consults RightToLeft() or is only called under a branch on it — that the mirrored arithmetic is right is not checked.",
+   ref="DESIGN.md §4 C07"),
 }
 
 NOT_APPLICABLE = {
